@@ -33,6 +33,8 @@ ENC = {
     "b64w30": lambda x: wrapped(x, 30, b"\r\n"),
     "b64w50": lambda x: wrapped(x, 50, b"\n"),
     "b64w76": lambda x: wrapped(x, 76, b"\r\n"),
+    "b64e32": lambda x: wrapped(x, 32, b"&#13;&#10;"),
+    "b64e64": lambda x: wrapped(x, 64, b"&#xD;&#10;"),
     "atob": lambda x: b"atob('" + base64.b64encode(x) + b"')",
     "Base64Decode": lambda x: b'Base64Decode("' + base64.b64encode(x) + b'")',
     "FromBase64String": lambda x: b"FromBase64String('" + base64.b64encode(x) + b"')",
@@ -67,6 +69,8 @@ PAYLOADS = [
     # an undecoded indicator nested inside another, closely followed by a further one
     (b"run /tmp/payload/evil.exe 10.1.2.3 now", [("path", b"/tmp/payload/evil.exe"), ("network.ip", b"10.1.2.3")]),
     (b"to administrator@evil-site.com 10.1.2.3 C:\\Users\\Public\\a.dll", [("network.email", b"administrator@evil-site.com"), ("network.ip", b"10.1.2.3")]),
+    # text that looks like escapes of the layers around it (each layer is removed exactly once)
+    (b"heap %u9090%u9090 spray then 10.20.30.40 %2541 &#65; done", [("network.ip", b"10.20.30.40")]),
     (b"x", []),
     (b"short1", []),
 ]
